@@ -62,6 +62,10 @@ let () = run_lines (fun toks ->
          | None -> none | Some (r, s') -> str_poly r ^ used s')
      | "randproot" -> (match Model.random_prim_root p (nat_of_int (int_of_string a.(0))) p s with
          | None -> none | Some ((pp, r), s') -> str_poly pp ^ " " ^ str_poly r ^ used s')
+     | "isprootL" -> b2s (Model.is_prim_root_L p (poly_of a.(0)) (poly_of a.(1)) p (stream_of a.(2))) ^ " #0"   (* factor list of q^n-1 supplied *)
+     | "orderL" -> string_of_z (Model.order_L p (poly_of a.(0)) (poly_of a.(1)) p (stream_of a.(2))) ^ " #0"
+     | "factor1" -> (match Model.factor1 p (poly_of a.(0)) p s with
+         | None -> none | Some (r, s') -> str_poly r ^ used s')
      | "diff" -> str_poly (Model.pdiff p (poly_of a.(0))) ^ " #0"
      | "powmod" -> str_poly (Model.ppowmod p (poly_of a.(0)) (zs a.(1)) (poly_of a.(2))) ^ " #0"
      | "gcd" -> str_poly (Model.pgcd p (poly_of a.(0)) (poly_of a.(1))) ^ " #0"
